@@ -3,9 +3,12 @@
    evaluated on every snapshot of every run of the C05 check.
    FULL STATEMENT (visible): C05_full_statement — Inv is preserved by every accepted conforming call.
    PROVED for every state and every call: the header half (header counts / rate / frame count / channel
-   count / samples per frame follow the parameters after every mutator).  NOT yet proved: the parameter half
-   (POINT/ANALOG USED, FRAMES and the label-like lists follow the stored frames), decided by the check. *)
-From EZ Require Import Base Types Api Proofs_Param Proofs_Guards Spec_Inv Proofs_Inv Proofs_Header Float32 Run.
+   count / samples per frame follow the parameters after every mutator), and for frame() the parameter half of the
+   counts (POINT:FRAMES / POINT:USED / ANALOG:USED are the stored frames / points of frame 0 / channels of its first
+   sub-frame after every accepted frame, on objects whose mandatory parameters are well typed).  NOT yet proved: the
+   label-like lists, the shape of frames other than frame 0, and the parameter half for the column and declare calls:
+   decided by the check. *)
+From EZ Require Import Base Types Api Proofs_Param Proofs_Guards Spec_Inv Proofs_Inv Proofs_Header Spec_Typed Proofs_Updaters Float32 Run.
 Local Open Scope N_scope.
 
 Definition conforming (s : state) (o : op) : Prop :=
@@ -95,6 +98,19 @@ Theorem C05_partial_updater_footprint : forall f_key f_tosize f_div b s,
   end.
 Proof. exact keeps_update_header. Qed.
 Print Assumptions C05_partial_updater_footprint.
+
+(* THE PARAMETER HALF for frame(): after every accepted frame() on an object whose mandatory parameters are well typed,
+   POINT:FRAMES is the number of stored frames, POINT:USED the number of points of frame 0 and ANALOG:USED the number of
+   channels of its first sub-frame (0 without sub-frames), read the way the library reads them; and the parameters are
+   still well typed, so the statement applies to the next call too. *)
+Theorem C05_parameters_follow_data_after_frame : forall f_key f_tosize f_div f_is_zero,
+  (forall x e, f_key x <> Throw e) -> (forall x e, f_tosize x <> Throw e) ->
+  forall f idx s s',
+  MT (groups s) -> (forall fs', put empty_frame (frames s) f idx = Ok fs' -> small_frames fs') ->
+  api_frame f_key f_tosize f_div f_is_zero f idx s = ROk tt s' ->
+  MT (groups s') /\ counts_follow s'.
+Proof. exact api_frame_counts. Qed.
+Print Assumptions C05_parameters_follow_data_after_frame.
 
 (* witnesses of the three known findings, on the executable instance *)
 Example C05_frames_without_shape_refuted :
